@@ -426,7 +426,9 @@ where
 			None => 0,
 		};
 		let keychain = wallet.keychain(keychain_mask)?;
-		let parent_key_id = wallet.parent_key_id();
+		// the sender address belongs to the account the transaction was sent from (the one
+		// verify_slate_payment_proof checked), not to whichever account is active now
+		let parent_key_id = context.parent_key_id.clone();
 		let excess = slate.calc_excess(keychain.secp())?;
 		let sender_key =
 			address::address_from_derivation_path(&keychain, &parent_key_id, derivation_index)?;
